@@ -61,6 +61,101 @@ func init() {
 					}
 				}
 			}
+			// removal of every reference: a method of the index that only removes from a descriptor list (never appends to it)
+			// and removes inside a scan goes on scanning after a removal — leaving at the first match keeps a second record of
+			// the digest (the child list can hold one: AddDesc's children option appends without looking) and the digest stays
+			// resolvable after it was removed.  (The top-level list is judged by TS-TAGKEEP's remove-all clause.)
+			for _, fn := range fns {
+				if len(fn.Blocks) == 0 || fn.Signature.Recv() == nil || len(fn.Params) == 0 {
+					continue
+				}
+				if _, isPtr := fn.Signature.Recv().Type().(*types.Pointer); !isPtr {
+					continue
+				}
+				st, ok := an.Deref(fn.Params[0].Type()).Underlying().(*types.Struct)
+				if !ok {
+					continue
+				}
+				for fi := 0; fi < st.NumFields(); fi++ {
+					sl, isSl := st.Field(fi).Type().Underlying().(*types.Slice)
+					if !isSl || !isNamed(sl.Elem(), r.TypesPath, "Descriptor") || st.Field(fi).Name() == "Manifests" {
+						continue
+					}
+					appends := false
+					var shrinks []*ssa.Store
+					an.Instrs(fn, func(in ssa.Instruction) {
+						sto, ok := in.(*ssa.Store)
+						if !ok {
+							return
+						}
+						fa, ok := sto.Addr.(*ssa.FieldAddr)
+						if !ok || fa.Field != fi || an.Strip(fa.X) != ssa.Value(fn.Params[0]) {
+							return
+						}
+						switch v := stripChangeType(an.Strip(sto.Val)).(type) {
+						case *ssa.Call:
+							if bi, isB := v.Call.Value.(*ssa.Builtin); isB && bi.Name() == "append" {
+								appends = true
+							} else if _, _, isRm := listRemover(v.Call.StaticCallee()); isRm {
+								shrinks = append(shrinks, sto)
+							}
+						case *ssa.Slice:
+							if v.High != nil && v.Low == nil {
+								shrinks = append(shrinks, sto)
+							}
+						}
+					})
+					if appends {
+						continue
+					}
+					k := 0
+					for _, sto := range shrinks {
+						h := loopHeader(sto.Block())
+						if h == nil {
+							// a block that leaves the loop unconditionally (`break` after the removal) is not part of the loop:
+							// find the loop through the counter the removed slot is indexed with
+							for _, in := range sto.Block().Instrs {
+								if s2, isSt := in.(*ssa.Store); isSt {
+									if ia, isIA := s2.Addr.(*ssa.IndexAddr); isIA {
+										if ph, isPhi := an.Strip(ia.Index).(*ssa.Phi); isPhi && isLoopHead(ph.Block()) {
+											h = ph.Block()
+										}
+									}
+								}
+							}
+						}
+						if h == nil {
+							continue
+						}
+						k++
+						n++
+						seen := map[*ssa.BasicBlock]bool{}
+						var escapes func(b *ssa.BasicBlock) bool
+						escapes = func(b *ssa.BasicBlock) bool {
+							if b == h || seen[b] {
+								return false
+							}
+							seen[b] = true
+							if len(b.Succs) == 0 {
+								return true
+							}
+							for _, x := range b.Succs {
+								if escapes(x) {
+									return true
+								}
+							}
+							return false
+						}
+						esc := false
+						for _, x := range sto.Block().Succs {
+							if escapes(x) {
+								esc = true
+							}
+						}
+						c.Check(!esc, fmt.Sprintf("remove-all:%s:%s#%d", kn(c.P.FuncName(fn)), st.Field(fi).Name(), k), sto.Pos(), "after the removal from %s at %s the scan of %s goes on with the remaining entries: %v — leaving at the first match keeps any second record of the digest: it stays resolvable after it was removed", st.Field(fi).Name(), c.P.Pos(sto.Pos()), c.P.FuncName(fn), !esc)
+					}
+				}
+			}
 			if n == 0 {
 				c.Unresolved("index-scans", "no counting loop over a descriptor list found in package types")
 			}
